@@ -125,7 +125,12 @@ class BpWorld(object):
         ''' A convergence layer hands over a received bundle (boundary used by bp.cla adaptors). '''
         from bp.util import BundleContainer
         from bp.encoding import Bundle
-        self.agent._cl_recv_bundle_finish('tcpcl')(data, {})
+        try:
+            self.agent._cl_recv_bundle_finish('tcpcl')(data, {})
+        except Exception as err:
+            # the adaptor callback runs from a D-Bus signal handler: an exception escapes the event loop callback
+            self.raised.append(err)
+            GLib.STATE.escaped.append(('recv_bundle_finish', err))
 
     def run_idle(self, max_steps=100):
         n = 0
